@@ -60,7 +60,10 @@ func History(r *vh.Run, name string, t *chainx.Tree, ids *IDs, decls map[int]*De
 // AddValidatedV2Blocks (used when the batch qualifies as pre-validated).
 func HistoryVia(r *vh.Run, name string, t *chainx.Tree, ids *IDs, decls map[int]*Decl, sched [][]int, via []bool, db chain.DB, tags ...string) *Rig {
 	c := &vh.Case{Name: name, Model: fmt.Sprintf("elements node %d", t.Net.N.HardforkV2.RequireHeight)}
+	// every other history runs its manager over the atomicity probe
+	ProbeNext = (len(sched)+len(t.Blocks))%2 == 0
 	rig, err := NewRig(c, t, ids, decls, db)
+	ProbeNext = false
 	if err != nil {
 		c.Oracle("newdbstore-failed", "%v", err)
 		r.Add(c)
@@ -100,6 +103,10 @@ func HistoryVia(r *vh.Run, name string, t *chainx.Tree, ids *IDs, decls map[int]
 	}
 	if rig.V2Batches > 0 {
 		c.Tags = append(c.Tags, "has-prevalidated-batch")
+	}
+	if rig.Probe != nil {
+		c.Tags = append(c.Tags, "probed-store")
+		r.CountTag("atomicity-probes", int(rig.Probe.Probes()))
 	}
 	if rig.UnstableRevs > 0 {
 		c.Tags = append(c.Tags, "history:reverted-unstable-block")
